@@ -135,6 +135,14 @@ func shapes() []*shape {
 			world.Item{Kind: "claim", Claim: "add", PN: 3, Attr: "tag", Val: 1, Date: 10, Signer: 1},
 			world.Item{Kind: "claim", Claim: "add", PN: 3, Attr: "tag", Val: 2, Date: 30, Signer: 2},
 			world.Item{Kind: "claim", Claim: "add", PN: 3, Attr: "tag", Val: 3, Date: 20, Signer: 1}),
+		// two claims of one signer within one second, the first on the whole second: their RFC 3339 texts (the claim
+		// rows' keys) sort the other way round than their times ("…:10.5Z" < "…:10Z")
+		mk("subsecond-claims", []string{"first", "second"},
+			world.Item{Kind: "key", Signer: 1},
+			world.Item{Kind: "permanode", Signer: 1, Data: "ssc"},
+			world.Item{Kind: "claim", Claim: "set", PN: 2, Attr: "title", Val: 1, Date: 10, Signer: 1},
+			world.Item{Kind: "claim", Claim: "set", PN: 2, Attr: "title", Val: 2, Date: 10, Nano: 500000000, Signer: 1},
+			world.Item{Kind: "claim", Claim: "add", PN: 2, Attr: "tag", Val: 1, Date: 10, Nano: 250000000, Signer: 1}),
 		// a permanode deleted, undeleted and deleted again: a chain of three delete claims (after a restart in the
 		// middle the last one lands on a deletes cache that was loaded from rows)
 		mk("redelete", []string{"t"},
